@@ -22,6 +22,8 @@ PROP = {'drive': ['Cff'], 'modules': ['SfntV.Props.C13'],
                        'C13_font_roundtrip_cid',
                        'C13_font_roundtrip',
                        'C13_write_converges',
+                       'C13_blue_deltas_roundtrip',
+                       'C13_blue_deltas_unrepaired_wrap',
                        'C13_font_roundtrip_total',
                        'C13_width_recovered',
                        'C13_predefined_charset',
@@ -88,10 +90,10 @@ PROP = {'drive': ['Cff'], 'modules': ['SfntV.Props.C13'],
                  'ItalicAngle, BlueShift, BlueFuzz, BlueScale, StdHW, StdVW, FontMatrix, widths) takes the default value of each other field '
                  'and its own default +-1, one field at a time and all together (values inside the documented omission windows - BlueScale '
                  'within 1e-6, FontMatrix within 1e-5 of the default - are excluded from the D predicate)',
-                 'blue arrays: every int16 array round-trips through the real code, also with neighbouring values more than 32767 apart and '
-                 'descending arrays (fixed family, gaps 32766..65535): the writer stores int16-wrapped deltas and the reader adds them up in '
-                 'int16; such files are outside what TN5176 says (spec reader skipped for them; finding with proposed one-line repair in '
-                 'patches/C13/proposed-setDeltaF16-unwrapped-deltas.diff). Widths: all-large multisets (65534..2*10^6, negative too, spread '
+                 'blue arrays: every int16 array round-trips (C13_blue_deltas_roundtrip: library reader and TN5176 reader), also with neighbouring '
+                 'values more than 32767 apart and descending arrays (fixed family, gaps 32766..65535, through cff.file.rt/model/spec/read); '
+                 'the unrepaired writer wrapped such deltas into int16 (repaired in e13ef76, witness C13_blue_deltas_unrepaired_wrap). '
+                 'Widths: all-large multisets (65534..2*10^6, negative too, spread '
                  'within 32767 of the nominal width) round-trip through cff.file.rt although C13_width_recovered is stated for |w| <= 32767',
                  'encodings with 250..256 codes (contiguous, scrambled, partly ranged, range counts 1..256 around 127/128/129 and 255, '
                  'supplements) are a fixed boundary family: D cff.encoding.rt on the real code, V against the model, whole fonts with 255/256 '
